@@ -296,6 +296,74 @@ def play_scenario(ctx, j):
     return {'job': j, 'controls': names}
 
 
+def again_scenario(ctx, j):
+    """the same note event played again after its keys were changed, and an edited copy of a played event: every play
+    sends the event's CURRENT values with a fresh node id at the current time"""
+    m = E()
+    evt, main, clk, stm, srv = m['evt'], m['main'], m['clk'], m['stm'], m['srv']
+    instruments(m)
+    rec = {'mode': 'nrt', 'kind': 'again', 'job': dict(j)}
+
+    def data(sub):
+        return {'key': f'c14:again:{sub}', 'replay': dict(rec, sub=sub)}
+    server = srv.Server.default
+    L = ctx.real('latency', 0, 5)
+    d0, d1 = ctx.real('d0', 0, 10), ctx.real('d1', 0.125, 10)
+    f1, f2 = ctx.real('freq', 20, 2000), ctx.real('freq2', 20, 2000)
+    a1, a2, pan = ctx.real('amp', 0, 1), ctx.real('amp2', 0, 1), ctx.real('pan', -1, 1)
+    saved_lat = server.latency
+    info = {'t': [], 'ids': []}
+    with osc_shims():
+        main.reset()
+        try:
+            server.latency = L
+
+            def body():
+                yield d0
+                e = evt.event({'instrument': 'vgate', 'freq': f1, 'amp': a1, 'dur': 1.0})
+                info['t'].append(clk.SystemClock.seconds)
+                e.play()
+                info['ids'].append(e['node_id'])
+                yield d1
+                e['amp'] = a2           # changed
+                e['pan'] = pan          # added
+                info['t'].append(clk.SystemClock.seconds)
+                e.play()
+                info['ids'].append(e['node_id'])
+                yield d1
+                e2 = e.copy()
+                e2['freq'] = f2
+                del e2['pan']           # removed
+                info['t'].append(clk.SystemClock.seconds)
+                e2.play()
+                info['ids'].append(e2['node_id'])
+            stm.Routine(body).play(clk.SystemClock)
+            score = main.process()
+            msgs = score_msgs(score.list)
+        finally:
+            server.latency = saved_lat
+            main.reset()
+    snew = [(t, x) for t, x in msgs if x[0] == '/s_new']
+    if len(snew) != 3:
+        raise Violation(f'{len(snew)} synth-creation commands for three plays', None, data('count'))
+    want = [{'freq': f1, 'amp': a1}, {'freq': f1, 'amp': a2, 'pan': pan}, {'freq': f2, 'amp': a2}]
+    if len(set(x[2] for _, x in snew)) != 3 or [x[2] for _, x in snew] != info['ids']:
+        raise Violation(f'node ids of the three plays: {[x[2] for _, x in snew]} (events say {info["ids"]})', None,
+                        data('node-id'))
+    for k, ((t, x), w) in enumerate(zip(snew, want)):
+        ctx.prove(R(t) == R(info['t'][k]) + R(L), f'play {k}: /s_new is not stamped at logical time + latency',
+                  data('time'))
+        val = dict(zip(x[5::2], x[6::2]))
+        if sorted(val) != sorted(w):
+            raise Violation(f'play {k}: /s_new sets {sorted(val)}, the event defines {sorted(w)} at that moment', None,
+                            data('controls'))
+        for name, v in w.items():
+            ctx.prove(R(val[name]) == R(v), f'play {k}: /s_new carries a stale value for {name!r} (the event was '
+                      'changed before it was played again)', data('value'))
+    ctx.note('again')
+    return {'job': j}
+
+
 # ------------------------------------------------------------------ (C) players
 
 def player_scenario(ctx, j):
@@ -433,7 +501,8 @@ def player_scenario(ctx, j):
 
 def job(j):
     k = j['kind']
-    h = {'chain': chain_scenario, 'ampdur': amp_dur_scenario, 'play': play_scenario, 'player': player_scenario}[k]
+    h = {'chain': chain_scenario, 'ampdur': amp_dur_scenario, 'play': play_scenario, 'player': player_scenario,
+         'again': again_scenario}[k]
     st = explore(lambda c: h(c, j), max_paths=60000, timeout_ms=20000, stop_on_violation=True)
     d = st.as_dict()
     for v in d['violations']:
@@ -520,7 +589,7 @@ def replay(rec):
     cur = symx.Ctx.cur
     try:
         {'chain': chain_scenario, 'ampdur': amp_dur_scenario, 'play': play_scenario,
-         'player': player_scenario}[rec['kind']](ctx, j)
+         'player': player_scenario, 'again': again_scenario}[rec['kind']](ctx, j)
     except Violation as v:
         return v.what
     except PathAbort:
@@ -556,13 +625,14 @@ def main(tier, seed):
             for aa in (None, 'addToTail'):
                 jobs.append(dict(kind='play', inst=inst, present=present, add_action=aa, rest=0))
         jobs.append(dict(kind='play', inst=inst, present=['amp'], add_action=None, rest=1))
+    jobs.append(dict(kind='again'))
     jobs += [dict(kind='player', form='pbind', stretch=0), dict(kind='player', form='pbind', stretch=1),
              dict(kind='player', form='ppar'), dict(kind='player', form='pdur'), dict(kind='player', form='pmono'),
              dict(kind='player', form='pbind', tuplekey=True), dict(kind='player', form='pdur', quant=True)]
     for r in run_jobs('vf.props.c14', 'job', jobs, 'nrt'):
         chk.add('events', r)
     chk.require_notes('events', ['chain:degree', 'chain:note', 'chain:midinote', 'chain:freq', 'chain:none', 'ampdur',
-                                 'play:vgate', 'play:vplain', 'rest', 'player:pbind', 'player:ppar', 'player:pdur',
+                                 'play:vgate', 'play:vplain', 'again', 'rest', 'player:pbind', 'player:ppar', 'player:pdur',
                                  'player:pmono'])
     chk.bounds = {'pitch': 'degree -9..15, mtranspose -3..3 (symbolic ints), other keys symbolic reals; default major '
                            'scale in equal temperament (+ one job with an explicit scale)',
